@@ -28,3 +28,5 @@ func (o *obj) Shared() interface{} {
 	}
 	return map[string]interface{}{"prog": o.progs, "chain": chain, "tailidx": ti, "len": n}
 }
+
+func (o *obj) WhiteBox() bool { return true }
